@@ -858,6 +858,8 @@ class Interp:
     def unpack(self, v, n, node):
         if isinstance(v, Tup):
             if len(v.items) != n:
+                if v.kind in ("tuple", "list") and not any(isinstance(x, (GenList, Unknown)) for x in v.items):
+                    raise raise_exc("ValueError", node, "cannot unpack %d values into %d targets" % (len(v.items), n))
                 raise AnalysisError("%s:%d: cannot unpack %d values into %d targets" % (self.cur_mod.name, node.lineno, len(v.items), n))
             return v.items
         if isinstance(v, Arr) and v.ndim == 1 and v.meta.get("elements") is not None and len(v.meta["elements"]) == n:
@@ -1685,6 +1687,10 @@ class Interp:
         name = node.id
         if name in env:
             return env[name]
+        fn = getattr(self, "cur_fn", None)
+        if fn is not None and isinstance(node.ctx, ast.Load) and _bound_only_under_ifs(fn, name):
+            # a local that this path did not assign (its assignments all sit in branches the path did not take)
+            raise raise_exc("UnboundLocalError", node, "local variable %s is read on a path that did not assign it" % name)
         return self.lookup_global(name, node)
 
     def lookup_global(self, name, node=None):
@@ -1833,6 +1839,9 @@ class Interp:
                             return self.eval(n.value, {})
                         finally:
                             self.cur_mod = saved_mod
+                if base.attrs.get("__strict__") and not c.bases and not attr.startswith("__"):
+                    # an instance of a class of the package, all of whose fields, methods and constants are known
+                    raise raise_exc("AttributeError", node, "%s (a %s) has no attribute %s" % (base.name, c.name, attr))
                 if base.attrs.get("__strict__"):
                     raise AnalysisError("%s:%s: %s has no attribute %s" % (self.cur_mod.name, getattr(node, "lineno", "?"), base.name, attr))
             return FuncRef("method", base.name + "." + attr, bound=base)
@@ -2111,6 +2120,8 @@ class Interp:
             try:
                 return base.items[int(c.re)]
             except IndexError:
+                if base.kind in ("list", "tuple") and not any(isinstance(x, (GenList, Unknown)) for x in base.items):
+                    raise raise_exc("IndexError", node, "index %d into a sequence of %d items" % (int(c.re), len(base.items)))
                 raise AnalysisError("%s:%d: tuple index out of range" % (self.cur_mod.name, node.lineno))
         if isinstance(base, Arr):
             idx = self.eval_index(node.slice, env)
@@ -2840,6 +2851,64 @@ def _is_generator(fn):
             continue
         stack.extend(ast.iter_child_nodes(n))
     return False
+
+
+_BOUND_CACHE = {}
+
+
+def _bound_only_under_ifs(fn, name):
+    """is `name` a local of `fn` all of whose bindings are plain assignments nested in nothing but if/else (so that whether
+    it is bound is decided by the branches taken, which the interpreter follows exactly)?"""
+    key = (id(fn), name)
+    if key in _BOUND_CACHE:
+        return _BOUND_CACHE[key]
+    found, ok = [False], [True]
+
+    def binds(t):
+        if isinstance(t, ast.Name):
+            return t.id == name
+        if isinstance(t, (ast.Tuple, ast.List)):
+            return any(binds(e) for e in t.elts)
+        if isinstance(t, ast.Starred):
+            return binds(t.value)
+        return False
+
+    def walk(stmts, plain):
+        for st in stmts:
+            if isinstance(st, (ast.Assign, ast.AnnAssign)):
+                ts = st.targets if isinstance(st, ast.Assign) else [st.target]
+                if any(binds(t) for t in ts):
+                    found[0] = True
+                    if not plain:
+                        ok[0] = False
+            elif isinstance(st, ast.If):
+                walk(st.body, plain)
+                walk(st.orelse, plain)
+            elif isinstance(st, (ast.Global, ast.Nonlocal)) and name in st.names:
+                ok[0] = False
+            elif isinstance(st, (ast.FunctionDef, ast.ClassDef, ast.AsyncFunctionDef)):
+                if st.name == name:
+                    ok[0] = False
+            else:
+                for sub in ast.walk(st):
+                    if isinstance(sub, ast.Name) and sub.id == name and isinstance(sub.ctx, (ast.Store, ast.Del)):
+                        ok[0] = False
+                    elif isinstance(sub, ast.alias) and (sub.asname or sub.name.split(".")[0]) == name:
+                        ok[0] = False
+                    elif isinstance(sub, ast.ExceptHandler) and sub.name == name:
+                        ok[0] = False
+            for sub in ast.walk(st) if isinstance(st, (ast.Assign, ast.AnnAssign, ast.If)) else ():
+                if isinstance(sub, ast.NamedExpr) and binds(sub.target):
+                    ok[0] = False
+
+    a = fn.args
+    if any(p.arg == name for p in a.posonlyargs + a.args + a.kwonlyargs) or (a.vararg and a.vararg.arg == name) or (a.kwarg and a.kwarg.arg == name):
+        r = False
+    else:
+        walk(fn.body, True)
+        r = found[0] and ok[0]
+    _BOUND_CACHE[key] = r
+    return r
 
 
 def subst_value(v, mp):
